@@ -78,6 +78,27 @@ def find_asker(depth: int = 2):
     return ("harness", None, None, None)
 
 
+def classify_consultation(depth: int = 2):
+    """who consults the global stop condition: ('deme', id, fn) when the call comes out of a deme's code; otherwise the
+    tree (or the harness driving it): 'post' when it happens inside DemeTree.run_step (after the demes ran), 'head' when
+    it is made between steps (the loop of run(), or the harness). Only the public method name run_step is relied on:
+    helper frames in between do not matter."""
+    f = sys._getframe(depth)
+    in_step = False
+    fn0 = None
+    while f is not None:
+        s = f.f_locals.get("self")
+        if s is not None:
+            if isinstance(s, AbstractDeme):
+                return ("deme", getattr(s, "_id", None), f.f_code.co_name)
+            if isinstance(s, DemeTree):
+                fn0 = fn0 or f.f_code.co_name
+                if f.f_code.co_name == "run_step":
+                    in_step = True
+        f = f.f_back
+    return ("post" if in_step else "head", None, fn0)
+
+
 # ------------------------------------------------------------------------------------------------
 # trace
 
@@ -187,13 +208,7 @@ class CapOr(GlobalStopCondition):
         # (the cap also ends runs whose tree outgrows 40 demes: mechanisms without a LevelLimit can grow geometrically)
         capped = tree.metaepoch_count >= self.cap or sum(len(lv) for lv in tree.levels) > 40
         verdict = real or capped
-        kind, did, lvl, fn = find_asker(2)
-        if kind == "tree":
-            asker = "head" if fn == "run" else ("post" if fn == "run_step" else "tree:" + str(fn))
-        elif kind == "deme":
-            asker = "deme"
-        else:
-            asker = "head"  # the harness drives run_step() itself
+        asker, did, fn = classify_consultation(2)
         tr = self.trace
         e = GscEntry(
             idx=len(tr.timeline),
